@@ -93,6 +93,8 @@ pub use membership::Membership;
 pub use network::Transport;
 pub use purge::PurgeExecutor;
 pub use raft::{LeaderInfo, Raft, SignalParams};
+#[cfg(deventlab_d_engine_verif)]
+pub use raft::VerifView;
 pub use state_machine_handler::{SnapshotPolicy, StateMachineHandler};
 pub use type_config::TypeConfig;
 
